@@ -8,6 +8,7 @@ fails (reals from native floats are compared with relative tolerance 1e-9) the v
 confirmed on the real code."""
 import json
 import os
+import sys
 import subprocess
 from fractions import Fraction
 
@@ -278,6 +279,88 @@ def pin_functions(ob):
     return pins
 
 
+def discharge_pinned(ob, timeout_ms=10000, rounds=80):
+    """Decide a replay obligation whose inputs are pinned but which still mentions the uninterpreted math
+    functions (cos, sin, exp, sqrt, sinc, pow), possibly at arguments that depend on skolem indices.
+    Counterexample-guided: solve; evaluate every math application under the model; wherever the model's
+    value differs from the real function at the model's (constant) argument values, add the true fact
+    f(constants) = value and solve again.  Only facts about constant arguments are ever added, so a 'failed'
+    verdict always carries a model in which every math function has its real value (to 1e-9)."""
+    import time as _t
+    from . import prove
+    table = _math_table()
+    apps = {}
+
+    def walk(e, seen):
+        if e.get_id() in seen:
+            return
+        seen.add(e.get_id())
+        if z3.is_quantifier(e):
+            walk(e.body(), seen)
+            return
+        if z3.is_app(e):
+            for ch in e.children():
+                walk(ch, seen)
+            if e.num_args() > 0 and e.decl().name() in table and e.decl().kind() == z3.Z3_OP_UNINTERPRETED:
+                apps[e.get_id()] = e
+    seen = set()
+    for f in ob.pc + [ob.formula]:
+        walk(f, seen)
+    if not apps:
+        return prove.discharge(ob, timeout_ms)
+    t0 = _t.time()
+    facts, have = [], set()
+
+    def num(v):
+        v = z3.simplify(v)
+        if z3.is_rational_value(v):
+            return Fraction(v.numerator_as_long(), v.denominator_as_long())
+        if z3.is_int_value(v):
+            return Fraction(v.as_long())
+        if z3.is_algebraic_value(v):
+            return v.approx(20).as_fraction()
+        return None
+    for _ in range(rounds):
+        s = z3.Solver()
+        s.set('timeout', timeout_ms)
+        for p_ in ob.pc + facts:
+            s.add(p_)
+        s.add(z3.Not(ob.formula))
+        r = s.check()
+        if r == z3.unsat:
+            return prove.Verdict(ob, 'discharged', solver='z3:replay-cegar', time_s=_t.time() - t0)
+        if r != z3.sat:
+            return prove.Verdict(ob, 'undecided', solver='z3:replay-cegar', time_s=_t.time() - t0, reason='unknown')
+        m = s.model()
+        new = 0
+        for e in apps.values():
+            args = [num(m.eval(a, model_completion=True)) for a in e.children()]
+            if any(a is None for a in args):
+                continue
+            try:
+                val = table[e.decl().name()](*[float(a) for a in args])
+            except (ValueError, OverflowError, ZeroDivisionError):
+                val = None
+            if val is None:
+                continue
+            cur = num(m.eval(e, model_completion=True))
+            want = Fraction(*float(val).as_integer_ratio())
+            if cur is not None and abs(cur - want) <= Fraction(1, 10 ** 9) * max(1, abs(want)):
+                continue
+            key = (e.decl().name(), tuple(args))
+            if key in have:
+                continue
+            have.add(key)
+            facts.append(e.decl()(*[z3.RealVal(str(a)) for a in args]) == z3.RealVal(str(want)))
+            new += 1
+        if new == 0:
+            v = prove.Verdict(ob, 'failed', solver='z3:replay-cegar', time_s=_t.time() - t0)
+            v.z3model = m
+            v.model = {str(d): str(m[d]) for d in m.decls() if d.arity() == 0}
+            return v
+    return prove.Verdict(ob, 'undecided', solver='z3:replay-cegar', time_s=_t.time() - t0, reason='math-function refinement budget')
+
+
 def _uf_children(e, table):
     out = []
     stack = [e]
@@ -399,9 +482,10 @@ def replay_with_model(world, contract, replay_state, pc, m):
         bad = []
         for o2 in ctx.obligations:
             o2.pc = strip_sqrt_axioms(o2.pc)
-            o2.pc = o2.pc + pin_functions(o2)
-            v2 = prove.discharge(o2, 10000)
+            v2 = discharge_pinned(o2, 10000)
             if v2.status == 'failed':
+                if os.environ.get('LVC_DEBUG_REPLAY'):
+                    print('REPLAY-FAIL', o2.name, '\n  formula:', z3.simplify(o2.formula), '\n  pins:', [str(p)[:100] for p in o2.pc[-12:]], file=sys.stderr)
                 bad.append({'obligation': o2.name, 'skolems': {k: v for k, v in (v2.model or {}).items()
                                                                if not any(k == str(p.arg(0)) for p in pins
                                                                           if p.num_args() == 2)}})
